@@ -83,6 +83,11 @@ def _cycle_representation(prog, b):
                 rep["split"].add(_sep_of(x, t, 1))
             elif any(re.fullmatch(r"alloc::slice::<impl \[T\]>::join|alloc::str::<impl \[S\]>::join", p_) for p_ in ps):
                 rep["join"].add(_sep_of(x, t, 1))
+            elif any(re.fullmatch(r"alloc::string::String::(push|push_str)", p_) for p_ in ps):
+                # a join written as a loop: the separator pushed between the items (a constant char / short literal)
+                sp = _sep_of(x, t, 1)
+                if sp is not None and len(sp) <= 2:
+                    rep["join"].add(sp)
             elif any(re.fullmatch(r"core::str::<impl str>::(contains|find|rfind|starts_with|ends_with|matches|match_indices)", p_) for p_ in ps):
                 # only a test on the variable's own text counts (not, say, an assertion about the id)
                 envs = {x.blocks[j]["term"]["dest"]["l"] for j in ba.calls(r"std::env::(var|var_os)")}
@@ -171,8 +176,12 @@ def run(ctx):
         # redo-unlocked child closure itself adds the id (checked as its own instance)
         unlocked_side = [t_t for (sw_, t_t, f_t) in common.field_switches(cl, "env::Env.unlocked")]
         others_add = all(bool(BA.of(c2).calls(r"cycles::add")) for (_, _, c2) in fcs if c2.key != cl.key and "unlocked" in c2.key)
-        p_strict = lba.path([0], ex, avoid=frozenset(ad), incl=True) if ex else [0]
-        p_relaxed = lba.path([0], ex, avoid=frozenset(ad) | frozenset(unlocked_side), incl=True) if ex else [0]
+        # (feasible paths: when the child's steps are methods spliced back in, an error exit of one step joins the
+        # normal exit before the caller's `?`, and plain block paths would run on from a failed step to the exec)
+        from core import FAL as _FAL
+        fal = _FAL.of(cl)
+        p_strict = fal.path([0], ex, avoid=frozenset(ad), incl=True) if ex else [0]
+        p_relaxed = fal.path([0], ex, avoid=frozenset(ad) | frozenset(unlocked_side), incl=True) if ex else [0]
         ok_add = bool(ad) and (p_strict is None or (p_relaxed is None and others_add and bool(unlocked_side)))
         ctx.ob("R12.2", "%s|cycles::add-before-exec" % cl.key, ok_add, where=ctx.where(cl, ex[0]) if ex else cl.span,
                detail=("cycles::add precedes execvp on every path" if p_strict is None else "cycles::add is skipped only on the env.unlocked side, where redo-unlocked's own child closure has already exported the id") if ok_add else
@@ -183,15 +192,31 @@ def run(ctx):
             sl, org, _ = backward_direct(cl, op_local(cl.blocks[ad[0]]["term"]["args"][0]), depth=80)
             # (a) file_id() of the captured lock, called in the child
             for o in [o for o in org if o[0] == "call" and call_matches(o[2], r"state::Lock::file_id")]:
-                for l in lba.ref_chain(op_local(o[2]["args"][0])):
+                chain_places = []
+                for l in lba.ref_chain(op_local(o[2]["args"][0]), depth=24):
                     d = lba.single_def(l)
                     if d and d[0] == "stmt" and d[3]["k"] in ("ref", "use"):
-                        for p in __import__("core").rvalue_places(d[3]):
-                            u = upvar_index(p)
-                            if u:
-                                pl = _upvar_parent_local(parent, cl, u[0])
-                                if pl is not None and parent.locals[pl] in ("state::Lock", "&state::Lock"):
-                                    ok = True
+                        chain_places.extend(p for p in __import__("core").rvalue_places(d[3]) if p is not None)
+                ups_ = [upvar_index(p) for p in chain_places if upvar_index(p)]
+                lock_field = False
+                for p in chain_places:
+                    for e in p["p"]:
+                        if isinstance(e, str) and e.startswith("f:") and not e.startswith("f:upvar."):
+                            adt, _, fname = e[2:].rpartition(".")
+                            a_ = prog.adts.get(adt)
+                            for v_ in (a_ or {}).get("variants", []):
+                                for fl in v_["fields"]:
+                                    if fl["name"] == fname and re.sub(r"'[a-z_]+ ", "", fl["ty"]) in ("state::Lock", "&state::Lock", "&mut state::Lock"):
+                                        lock_field = True
+                for u in ups_:
+                    pl = _upvar_parent_local(parent, cl, u[0])
+                    if pl is None:
+                        continue
+                    if parent.locals[pl] in ("state::Lock", "&state::Lock"):
+                        ok = True
+                    elif lock_field:
+                        # the lock travels inside a struct the closure captured (`child.lock`)
+                        ok = True
             # (b) a captured value that the parent computed with Lock::file_id()
             ups = set()
             for l in sl:
